@@ -2,6 +2,11 @@
 """Summarise seeded/<id>/: writes seeded/<id>/lead.json (what the lead ran and saw) and seeded/SUMMARY.md."""
 import json, os, re, glob
 NOTES = {
+ "C11-seed1": "missed by the check as it stood when the seed arrived (exit 0: no operation of the alphabet made a materialised sheet need a NEW numbered dependent part); caught after the edit operation also adds a comment (clause saved-content-equals-eager, the unloaded sheet's comments are replaced)",
+ "C01-seed2": "missed by C01 as it stood (exit 0: C01 built workbooks with direct setters only) but caught by C10 (save-emission); C01 catches it since the `built` space (cells placed by move/copy/insert/remove) was added",
+ "C16-seed2": "C16 as it stood answered exit 2 (cannot decide: the change adds a lock operation on the shared table without a hook); C16 now still explores and reports violations found at the hooked points (exit 1 through the configuration `2-lazy-clones-one-fully-materialised`), and only refuses to certify ABSENCE of violations; C12 caught it as it stood",
+ "C12-seed2": "caught by C12 as it stood (missing-string / no-panic on reload-lazy histories with clones); see C16-seed2 for C16",
+
  "C02-seed1": "missed by the check as it stood when the seed arrived (exit 0: the lattice removed and renamed sheets but never added one after a removal); caught after `sheet-removed-renamed` also adds a sheet after the removal (validator clause sheet-id-dup)",
  "C03-seed1": "the generator as it stood only produced shared blocks whose master is the top-left cell, so no child reference left the sheet; caught by the new `shared-edge` family (master not left-most, grid edges)",
  "C05-seed1": "the colour alphabet as it stood had tint only on a theme colour; caught after adding near-duplicates that differ only in the tint of an rgb / indexed colour (font, fill, border)",
@@ -25,6 +30,10 @@ for d in sorted(glob.glob('/verif/seeded/*/')):
                 return re.findall(r'test result: (\w+)\. (\d+) passed; (\d+) failed', s)
         return []
     wo, wi, suite = res('demo WITHOUT'), res('demo WITH the'), res('repository suite')
+    # a later single-threaded re-run (appended by the lead) supersedes the first one
+    wo2, wi2 = res('demo WITHOUT the change (single-threaded)'), res('demo WITH the change (single-threaded)')
+    if wo2 and wi2:
+        wo, wi = wo2, wi2
     ours = re.findall(r'^RESULT (\S+) tier=(\S+) exit=(\d+)', txt, flags=re.M)
     clauses = sorted(set(re.findall(r'clause=(\S+) symptom=(\S+)', txt)))[:6]
     meta = {}
